@@ -47,12 +47,20 @@ def main():
         notes="See DESIGN.md. Known findings: known_findings.json.")
     json.dump(man, open(os.path.join(VERIF, "MANIFEST.json"), "w"), indent=1)
     kf = dict(findings=[], fixed=[])
+    ap = os.path.join(VERIF, "fixes_applied.json")
+    applied = json.load(open(ap)) if os.path.exists(ap) else {}
     for fp in sorted(glob.glob(os.path.join(VERIF, "props", "*", "findings.json"))):
         if os.path.basename(os.path.dirname(fp)) not in integrated:
             continue
         d = json.load(open(fp))
         kf["findings"] += d.get("findings", [])
-        kf["fixed"] += d.get("fixed", [])
+        for e in d.get("fixed", []):
+            e = dict(e)
+            c = applied.get(e.get("patch", ""), applied.get(e.get("id", "")))
+            if c:
+                e["commit"] = c
+                e["line"] = "fixed: property=%s %s %s" % (e.get("property"), c, e.get("what", ""))
+            kf["fixed"].append(e)
     json.dump(kf, open(os.path.join(VERIF, "known_findings.json"), "w"), indent=1)
     print("claimed:", claimed)
 
